@@ -24,18 +24,18 @@ def _(c):
           steps='self.options["accelerate_mesh_steps"]')
     # default improvement policy (properties C13/C04 quantify over settings that keep it)
     c.req("no_stobads", 'not truthy(self.options["stobads"])')
-    c.req("cap_nonpos", "msi <= cap and cap <= 0")
-    c.req("ssi_le_msi", "ssi <= msi")
+    c.req("cap_nonpos", "msi <= cap and cap <= 0", props=["C13"])
+    c.req("ssi_le_msi", "ssi <= msi", props=["C13"])
     c.req("grid_number_nonneg", 'self.options["search_grid_number"] >= 0')
     c.req("D_pos", "self.D >= 1")
-    c.req("forcing_nonneg", "self.sufficient_improvement >= 0")
+    c.req("forcing_nonneg", "self.sufficient_improvement >= 0", props=["C13", "C04", "C03"])
     c.loop(0, invariants={
-        "good_iff": "iff(certain_good_poll, poll_best_improvement > self.sufficient_improvement)",
-        "best_is_gap": "poll_best_improvement == self.fval - f_poll_best and poll_best_improvement >= 0",
+        "c13_good_iff": "iff(certain_good_poll, poll_best_improvement > self.sufficient_improvement)",
+        "c13_best_is_gap": "poll_best_improvement == self.fval - f_poll_best and poll_best_improvement >= 0",
         "count": "poll_count >= 0",
         "basis_and_set_together": "isnone(B) == isnone(u_poll) and implies(not isnone(B), rows(B) >= 2)",
-        "calls_counted": "ghost.n_calls - old(ghost.n_calls) == fc - old(fc) and nY >= old(nY)",
-        "no_failure": "not truthy(ghost.target_raised)",
+        "c03_calls_counted": "ghost.n_calls - old(ghost.n_calls) == fc - old(fc) and nY >= old(nY)",
+        "c10_no_failure": "not truthy(ghost.target_raised)",
         "logger_wf": wf_at("self.function_logger"),
         # C04: the best polled point so far is a logged evaluation and no logged value is below it
         "c04_best_logged": "implies(" + DET + ", " + INC("u_poll_best", "y_poll_best") + " and f_poll_best == y_poll_best and f_sd_poll_best == 0)",
@@ -49,7 +49,7 @@ def _(c):
         "c04_state_kept": "self.fval == old(self.fval) and self.yval == old(self.yval) and self.fsd == old(self.fsd) and "
                           "self.optim_state['uncertainty_handling_level'] == old(self.optim_state['uncertainty_handling_level']) and "
                           "truthy(self.function_logger.he_noise_flag) == truthy(old(self.function_logger.he_noise_flag))",
-        "budget": "implies(old(fc) < B_, fc <= B_) and fc >= old(fc) and implies(old(fc) >= B_, fc == old(fc))",
+        "c03_budget": "implies(old(fc) < B_, fc <= B_) and fc >= old(fc) and implies(old(fc) >= B_, fc == old(fc))",
     }, variant=["2 * self.D - poll_count"])
     # --- C13 top-level clauses, taken from the property statement -------------------------------
     c.ens("success_doubles", "implies(old(self.fval) - result[1] > old(self.sufficient_improvement), "
